@@ -67,7 +67,7 @@ class MatchPlain(Contract):
 
 class MatchReal(Contract):
     """_Match.match with REALPATH (prologue): TypeError exactly on mixed types; a path that does not exist never matches."""
-    module, qual, props = '_wcmatch', '_Match.match', ('C04', 'C18')
+    module, qual, props = '_wcmatch', '_Match.match', ('C04', 'C18', 'C10')
     assumptions = ('os.path.lexists / os.lstat tell the truth about the file system; SUPPORT_DIR_FD is a platform constant',)
     forking = ('os.lstat',)
     allowed_raises = ('TypeError',)
